@@ -170,10 +170,9 @@ theorem settled_stepK {P : Params κ} {A : AdmSpec κ} (hG : GoodK P A) {cfg : C
       by rw [fs_checks l (hpo l hl) t ht]; exact hch⟩
     rw [hks, hfres _ (fun ohs' hohs' e => ?_)]
     · exact hres
-    · have hl' : (keyState t s.fs ohs).label = (keyState t0 s.fs ohs').label :=
-        (hG.inj _ _ (hG.admKs t s.fs ohs (hT l (hpo l hl) t ht) (hin l (hpo l hl) t ht) (depOhs_length hoh))
-          (hG.admKs t0 s.fs ohs' (hT l0 hl0o t0 ht0) (hin l0 hl0o t0 ht0) (depOhs_length hohs')) e).1
-      simp only [keyState] at hl'
+    · have hl' : t.label = t0.label :=
+        hG.sepLbl t s.fs ohs t0 s.fs ohs' (hT l (hpo l hl) t ht) (hT l0 hl0o t0 ht0) (hin l (hpo l hl) t ht) (hin l0 hl0o t0 ht0)
+          (depOhs_length hoh) (depOhs_length hohs') e
       rw [hlab, hlab0] at hl'; exact hne hl'
   · -- the target just processed
     simp only [List.mem_singleton] at hl; subst hl
